@@ -110,22 +110,53 @@ def run(ctx, config="all"):
         else:
             rep.violation("try_from_f32", "%s:%s" % (b32["file"], b32["line"]), "TryFrom<f32> is not the exact widening "
                           "forward to TryFrom<f64>: calls %s, casts %s, ops %s" % (calls, casts, binops))
-    # Uint -> float
+    # Uint -> float: (top 64 bits as float) * (a factor derived from the exponent only), one multiplication,
+    # no other rounding float operation in the body.  How the power of two is produced (libm exp2, bit pattern,
+    # table) is not prescribed -- its value is arithmetic and not decided.
     for k, nm in ((TO_F64, "f64"), (TO_F32, "f32")):
         bb = prog.bodies.get(k)
         if bb is None:
             continue
         vv = prog.view(bb, (65, 2))
-        calls = [(ir.callee_name(t["fn"]) or "").split("::")[-1] for _bi, t in vv.calls()]
-        casts = [s["rv"]["kind"] for bi in vv.reachable for s in vv.blocks[bi]["stmts"]
-                 if s["s"] == "assign" and s["rv"]["r"] == "cast" and s["rv"]["kind"] == "IntToFloat"]
-        binops = sorted(s["rv"]["op"] for bi in vv.reachable for s in vv.blocks[bi]["stmts"]
-                        if s["s"] == "assign" and s["rv"]["r"] == "bin")
-        if calls.count("most_significant_bits") == 1 and calls.count("exp2") == 1 and len(casts) == 2 and binops == ["Mul"]:
-            rep.ok("to_%s" % nm, "%s:%s" % (bb["file"], bb["line"]), "(bits as f) * (exponent as f).exp2()")
+        wh = "%s:%s" % (bb["file"], bb["line"])
+        msb = [(bi, t) for bi, t in vv.calls() if (ir.callee_name(t["fn"]) or "").endswith("::most_significant_bits")]
+        fops = []
+        for bi in sorted(vv.reachable):
+            for s in vv.blocks[bi]["stmts"]:
+                if s["s"] == "assign" and s["rv"]["r"] == "bin" and not s["pl"]["p"] and is_float_local(vv, s["pl"]["l"]):
+                    fops.append((s["rv"]["op"], s))
+        muls = [s for op, s in fops if op == "Mul"]
+        others = sorted(op for op, _s in fops if op in ROUNDING and op != "Mul")
+        if len(msb) != 1 or len(muls) != 1 or others:
+            rep.violation("to_%s" % nm, wh, "Uint->%s is not (top 64 bits as float) * factor(exponent) with a single rounding "
+                          "multiplication: %d most_significant_bits calls, %d multiplications, other rounding ops %s" % (
+                              nm, len(msb), len(muls), others))
+            continue
+        d = msb[0][1]["dest"]["l"]
+
+        def fields_used(op):
+            used, seen, st = set(), set(), [op]
+            while st:
+                o = st.pop()
+                if o.get("o") not in ("copy", "move"):
+                    continue
+                if o["l"] == d and o["p"] and o["p"][0][0] == "f":
+                    used.add(o["p"][0][1])
+                    continue
+                if o["l"] in seen or vv.is_arg(o["l"]):
+                    continue
+                seen.add(o["l"])
+                for bi, si, x in vv.defs.get(o["l"], []):
+                    if si == "term":
+                        st.extend(x["args"])
+                    elif x.get("rv"):
+                        st.extend(ir.operands_of_rvalue(x["rv"]))
+            return used
+        fa, fb = fields_used(muls[0]["rv"]["a"]), fields_used(muls[0]["rv"]["b"])
+        if {frozenset(fa), frozenset(fb)} == {frozenset({0}), frozenset({1})}:
+            rep.ok("to_%s" % nm, wh, "(bits as %s) * factor(exponent)" % nm)
         else:
-            rep.violation("to_%s" % nm, "%s:%s" % (bb["file"], bb["line"]), "Uint->%s is no longer one int->float cast of the "
-                          "top 64 bits times exp2(exponent): calls %s, int->float casts %d, float ops %s (more than one "
-                          "rounding step)" % (nm, calls, len(casts), binops))
+            rep.violation("to_%s" % nm, wh, "the multiplication's operands derive from fields %s and %s of most_significant_bits() "
+                          "(expected the mantissa on one side and the exponent on the other)" % (sorted(fa), sorted(fb)))
     rep.analysed["build_config"] = config
     return rep
